@@ -1,8 +1,16 @@
 package main
 
 import (
-	_ "verif/checks"
+	"os"
+
+	"verif/checks"
 	"verif/internal/eng"
 )
 
-func main() { eng.Main() }
+func main() {
+	if len(os.Args) >= 4 && os.Args[1] == "-c08obs" {
+		checks.C08ChildMain(os.Args[2:])
+		return
+	}
+	eng.Main()
+}
